@@ -1,8 +1,9 @@
 (* Send-side flow control, part 3 (model/FlowSend.v):
    G. progress at full strength: the sender's buffer_is_empty flag is false whenever data or a FIN is waiting, so
       the guard of the stream loop never skips a stream that has something to send;
-   H. the repaired _parse_transport_parameters ([OParamsP], repair of finding C06-F1): after handshake parameters
-      that LOWER the remembered limits (0-RTT not accepted) no STREAM frame exceeds the limits in force. *)
+   H. the repaired _parse_transport_parameters ([OParamsP], repair of finding C06-F1): what it does when 0-RTT was
+      accepted / not accepted, and that after handshake parameters that LOWER the remembered limits no STREAM
+      frame exceeds the limits in force. *)
 From Coq Require Import ZArith List Bool Lia ZifyBool.
 From AQ Require Import lib.Base model.RangeSet model.StreamSend model.FlowSend
   proofs.RangeSetP proofs.ListZ proofs.StreamSendP proofs.FlowSendP.
@@ -183,7 +184,7 @@ Proof.
   - destruct (store_limits_keep (match pm with PAccepted => true | _ => false end) c
                 (orz md 0) (orz bl 0) (orz br 0) (orz un 0) (orz sb 0) (orz su 0)) as (_ & _ & K & _).
     unfold FL in *. destruct pm; cbn [snd reblock c_streams]; rewrite K; try exact V.
-    apply Forall_map. cbn [blocked_again t_send]. exact V.
+    apply Forall_map. eapply Forall_impl; [|exact V]. intros t Ht. exact Ht.
 Qed.
 
 Lemma fl_run ops : forall c, FL c -> FL (frun c ops).
@@ -250,261 +251,14 @@ Proof.
     split; [exact Hne|]. destruct (Hd Hne) as (_ & Hm). apply Hm. reflexivity.
 Qed.
 
-(* ================= H. the repaired _parse_transport_parameters, 0-RTT not accepted =================
-   [preach]: like [freach], plus handshake parameters processed with 0-RTT NOT accepted ([OParamsP PRejected]), whose
-   values may be LOWER than the remembered ones.  Guard of that operation: the values are varints (>= 0) and every
-   stream the connection holds at that moment was opened locally (the handshake parameters are processed while the
-   EncryptedExtensions message is handled, before any 1-RTT key exists, so no peer frame can have created a stream;
-   the tie checks this on every scenario).
-   What survives a lowering is not "highest_offset <= limit" (highest_offset still counts the bytes of the discarded
-   0-RTT packets) but the wire statement: every STREAM frame cut afterwards lies within the limits in force. *)
-Definition nn (o : option Z) : Prop := match o with Some v => 0 <= v | None => True end.
+(* ================= H. the repaired _parse_transport_parameters =================
+   [freach] (FlowSendP.v) contains [OParamsP]: restoring from a ticket is guarded like [OParams]; with 0-RTT accepted
+   there is NO guard on the values; with 0-RTT not accepted the values may be LOWER than those held (guard: varints,
+   and every stream existing at that moment was opened locally). *)
 
-Definition pguard2 (c : conn) (op : fop) : Prop :=
-  match op with
-  | OParamsP PRejected md bl br un sb su =>
-      nn md /\ nn bl /\ nn br /\ nn un /\ nn sb /\ nn su /\
-      Forall (fun t => is_local c (t_id t) = true) (c_streams c)
-  | _ => pguard c op
-  end.
-
-Inductive preach : conn -> (Z -> Z) -> Prop :=
-| preach_init cl : preach (conn_init cl) (fun _ => 0)
-| preach_step c gm op : preach c gm -> pguard2 c op -> preach (snd (fstep c op)) (gstep gm op).
-
-Lemma freach_preach c gm : freach c gm -> preach c gm.
-Proof.
-  induction 1 as [|c gm op R IH G]; [constructor|]. apply preach_step; [exact IH|].
-  destruct op; try exact G. destruct m; try exact G. destruct G.
-Qed.
-
-(* a stream that is not held back has a limit the peer granted under the parameters in force, and lies inside the
-   stream-count limit in force *)
-Definition SQ2 (c : conn) (gm : Z -> Z) (t : strm) : Prop :=
-  (t_blocked t = false -> t_msdr t <= granted c gm (t_id t)) /\
-  (is_local c (t_id t) = true -> t_blocked t = false -> t_id t / 4 < ms_for c (t_id t)).
-
-Record PInv (c : conn) (gm : Z -> Z) : Prop := {
-  p_bl : 0 <= c_msd_bl c;
-  p_streams : Forall (SQ2 c gm) (c_streams c);
-  p_nodup : NoDup (map t_id (c_streams c));
-  p_blk_bidi : BL c (c_streams c) false (c_blk_bidi c);
-  p_blk_uni : BL c (c_streams c) true (c_blk_uni c)
-}.
-
-Lemma SQ2_mono c c' gm gm' t : sc_le c c' -> (forall s, gm s <= gm' s) -> SQ2 c gm t -> SQ2 c' gm' t.
-Proof.
-  intros (Hc & H1 & H2 & H3 & H4 & H5) Hg (A & B).
-  assert (L : forall s, is_local c' s = is_local c s) by (intros s; unfold is_local; rewrite Hc; reflexivity).
-  split.
-  - intros Hb. specialize (A Hb). unfold granted, initial_for in *. rewrite L. specialize (Hg (t_id t)).
-    destruct (is_local c (t_id t)); [destruct (sid_uni (t_id t))|]; lia.
-  - intros Hl Hb. rewrite L in Hl. specialize (B Hl Hb). unfold ms_for in *. destruct (sid_uni (t_id t)); lia.
-Qed.
-
-Lemma pinv_init cl : PInv (conn_init cl) (fun _ => 0).
-Proof.
-  constructor; cbn; try lia; try (constructor; fail).
-  - split; [constructor|intros sid []].
-  - split; [constructor|intros sid []].
-Qed.
-
-Lemma PInv_grow c c' gm gm' :
-  sc_le c c' -> (forall s, gm s <= gm' s) ->
-  c_streams c' = c_streams c -> c_blk_bidi c' = c_blk_bidi c -> c_blk_uni c' = c_blk_uni c ->
-  PInv c gm -> PInv c' gm'.
-Proof.
-  intros Hs Hg E1 E2 E3 V. pose proof Hs as (Hc & H1 & H2 & H3 & H4 & H5).
-  constructor; rewrite ?E1, ?E2, ?E3.
-  - pose proof (p_bl _ _ V); lia.
-  - eapply Forall_impl; [|exact (p_streams _ _ V)]. intros t. apply SQ2_mono; assumption.
-  - exact (p_nodup _ _ V).
-  - eapply BL_mono; [exact Hc|exact (p_blk_bidi _ _ V)].
-  - eapply BL_mono; [exact Hc|exact (p_blk_uni _ _ V)].
-Qed.
-
-Lemma map_id_upd sid f l : (forall x, t_id (f x) = t_id x) -> map t_id (upd_strm sid f l) = map t_id l.
-Proof.
-  intros Hf. induction l as [|x l IH]; cbn [upd_strm map]; [reflexivity|].
-  destruct (t_id x =? sid); cbn [map]; [rewrite Hf|rewrite IH]; reflexivity.
-Qed.
-
-(* an update of one stream that keeps id and is_blocked, with SQ2 for the new value *)
-Lemma PInv_upd c gm sid f t used' :
-  PInv c gm -> find_strm sid (c_streams c) = Some t ->
-  (forall x, t_id (f x) = t_id x) -> (forall x, t_blocked (f x) = t_blocked x) ->
-  SQ2 c gm (f t) ->
-  PInv (mkConn (c_client c) (c_max_data c) used' (c_msd_bl c) (c_msd_br c) (c_msd_uni c) (c_ms_bidi c) (c_ms_uni c)
-               (upd_strm sid f (c_streams c)) (c_blk_bidi c) (c_blk_uni c)) gm.
-Proof.
-  intros V Hf Hi Hb Hq.
-  set (c' := mkConn _ _ _ _ _ _ _ _ _ _ _).
-  assert (S : sc_le c c') by (unfold sc_le, c'; cbn [c_client c_msd_bl c_msd_br c_msd_uni c_ms_bidi c_ms_uni]; repeat split; try reflexivity; lia).
-  constructor; unfold c'; cbn [c_msd_bl c_streams c_blk_bidi c_blk_uni].
-  - exact (p_bl _ _ V).
-  - apply (Forall_upd _ sid f _ t).
-    + eapply Forall_impl; [|exact (p_streams _ _ V)]. intros x. apply SQ2_mono; [exact S|intros; lia].
-    + exact Hf.
-    + apply (SQ2_mono c c' gm gm); [exact S|intros; lia|exact Hq].
-  - rewrite map_id_upd by exact Hi. exact (p_nodup _ _ V).
-  - eapply BL_mono; [reflexivity|]. apply BL_upd; [exact Hi|exact Hb|exact (p_blk_bidi _ _ V)].
-  - eapply BL_mono; [reflexivity|]. apply BL_upd; [exact Hi|exact Hb|exact (p_blk_uni _ _ V)].
-Qed.
-
-(* SQ2 does not look at the sender or at stop_pending *)
-Lemma PInv_upd_send c gm sid t s' : PInv c gm -> find_strm sid (c_streams c) = Some t -> PInv (upd_send c sid s') gm.
-Proof.
-  intros V Hf. unfold upd_send, with_streams.
-  apply (PInv_upd c gm sid (set_send s') t (c_used c) V Hf); try (intros; reflexivity).
-  pose proof (p_streams _ _ V) as F. rewrite Forall_forall in F. exact (F t (find_in _ _ _ Hf)).
-Qed.
-
-Lemma PInv_upd_stop c gm sid t b : PInv c gm -> find_strm sid (c_streams c) = Some t ->
-  PInv (with_streams c (upd_strm sid (set_stop b) (c_streams c))) gm.
-Proof.
-  intros V Hf. unfold with_streams.
-  apply (PInv_upd c gm sid (set_stop b) t (c_used c) V Hf); try (intros; reflexivity).
-  pose proof (p_streams _ _ V) as F. rewrite Forall_forall in F. exact (F t (find_in _ _ _ Hf)).
-Qed.
-
-Lemma find_none_notin sid l : find_strm sid l = None -> ~ In sid (map t_id l).
-Proof.
-  induction l as [|x l IH]; cbn [find_strm map]; [intros _ []|]. destruct (t_id x =? sid) eqn:E; [discriminate|].
-  intros H [Hx|Hx]; [lia|exact (IH H Hx)].
-Qed.
-
-Lemma NoDup_ids_snoc l t : NoDup (map t_id l) -> find_strm (t_id t) l = None -> NoDup (map t_id (l ++ [t])).
-Proof. intros N Hf. rewrite map_app. cbn [map]. apply NoDup_snoc; [exact N|apply find_none_notin; exact Hf]. Qed.
-
-Lemma for_send_pinv c gm sid c1 t : PInv c gm -> for_send c sid = Some (c1, t) ->
-  PInv c1 gm /\ find_strm sid (c_streams c1) = Some t.
-Proof.
-  intros V. unfold for_send. destruct (negb (can_send c sid)); [discriminate|].
-  destruct (find_strm sid (c_streams c)) as [t0|] eqn:Ef.
-  { intros H; inversion H; subst. split; assumption. }
-  destruct (negb (Bool.eqb (sid_client sid) (c_client c))) eqn:El; [discriminate|].
-  assert (Hloc : is_local c sid = true) by (unfold is_local; destruct (Bool.eqb (sid_client sid) (c_client c)); [reflexivity|discriminate]).
-  intros H; inversion H; subst c1 t; clear H.
-  set (msd := if sid_uni sid then c_msd_uni c else c_msd_br c).
-  set (maxs := if sid_uni sid then c_ms_uni c else c_ms_bidi c).
-  set (blocked := sid / 4 >=? maxs).
-  set (t := mkStrm sid blocked msd (send_init true) false).
-  set (c1 := mkConn _ _ _ _ _ _ _ _ _ _ _).
-  assert (S : sc_le c c1) by (unfold sc_le, c1; cbn [c_client c_msd_bl c_msd_br c_msd_uni c_ms_bidi c_ms_uni]; repeat split; try reflexivity; lia).
-  assert (Hfind : find_strm sid (c_streams c ++ [t]) = Some t).
-  { rewrite (find_app_none _ _ _ Ef). cbn [t_id t]. assert (E : sid =? sid = true) by lia. rewrite E. reflexivity. }
-  split; [|exact Hfind].
-  constructor; unfold c1; cbn [c_msd_bl c_streams c_blk_bidi c_blk_uni].
-  - exact (p_bl _ _ V).
-  - apply Forall_app. split.
-    + eapply Forall_impl; [|exact (p_streams _ _ V)]. intros x. apply SQ2_mono; [exact S|intros; lia].
-    + constructor; [|constructor]. apply (SQ2_mono c c1 gm gm); [exact S|intros; lia|].
-      unfold SQ2, t. cbn [t_msdr t_id t_blocked]. split.
-      * intros _. unfold granted, initial_for. rewrite Hloc. fold msd. lia.
-      * intros _ Hb. unfold ms_for. fold maxs. unfold blocked in Hb. lia.
-  - apply NoDup_ids_snoc; [exact (p_nodup _ _ V)|exact Ef].
-  - eapply BL_mono; [reflexivity|]. pose proof (p_blk_bidi _ _ V) as B.
-    destruct (blocked && negb (sid_uni sid)) eqn:Eb; [|apply BL_app; exact B].
-    apply andb_true_iff in Eb. destruct Eb as (Eb1 & Eb2).
-    pose proof (BL_not_in _ _ _ _ _ B Ef) as Hni. destruct (BL_app _ _ _ _ t B) as (N & HB).
-    split; [apply NoDup_snoc; assumption|]. intros s Hin. apply in_app_or in Hin. destruct Hin as [Hin|[Hin|[]]]; [exact (HB s Hin)|].
-    subst s. repeat split; [destruct (sid_uni sid); [discriminate|reflexivity]|exact Hloc|]. exists t. split; [exact Hfind|exact Eb1].
-  - eapply BL_mono; [reflexivity|]. pose proof (p_blk_uni _ _ V) as B.
-    destruct (blocked && sid_uni sid) eqn:Eb; [|apply BL_app; exact B].
-    apply andb_true_iff in Eb. destruct Eb as (Eb1 & Eb2).
-    pose proof (BL_not_in _ _ _ _ _ B Ef) as Hni. destruct (BL_app _ _ _ _ t B) as (N & HB).
-    split; [apply NoDup_snoc; assumption|]. intros s Hin. apply in_app_or in Hin. destruct Hin as [Hin|[Hin|[]]]; [exact (HB s Hin)|].
-    subst s. repeat split; [exact Eb2|exact Hloc|]. exists t. split; [exact Hfind|exact Eb1].
-Qed.
-
-Lemma from_peer_pinv c gm sid c1 t : PInv c gm -> (forall s, 0 <= gm s) -> from_peer c sid = Some (c1, t) ->
-  PInv c1 gm /\ find_strm sid (c_streams c1) = Some t.
-Proof.
-  intros V Hgm. unfold from_peer.
-  destruct (find_strm sid (c_streams c)) as [t0|] eqn:Ef.
-  { intros H; inversion H; subst. split; assumption. }
-  destruct (Bool.eqb (sid_client sid) (c_client c)) eqn:El; [discriminate|].
-  assert (Hloc : is_local c sid = false) by exact El.
-  intros H; inversion H; subst c1 t; clear H.
-  set (t := mkStrm sid false (if sid_uni sid then 0 else c_msd_bl c) (send_init (negb (sid_uni sid))) false).
-  assert (Hfind : find_strm sid (c_streams c ++ [t]) = Some t).
-  { rewrite (find_app_none _ _ _ Ef). cbn [t_id t]. assert (E : sid =? sid = true) by lia. rewrite E. reflexivity. }
-  split; [|exact Hfind]. unfold with_streams.
-  set (c1 := mkConn _ _ _ _ _ _ _ _ _ _ _).
-  assert (S : sc_le c c1) by (unfold sc_le, c1; cbn [c_client c_msd_bl c_msd_br c_msd_uni c_ms_bidi c_ms_uni]; repeat split; try reflexivity; lia).
-  constructor; unfold c1; cbn [c_msd_bl c_streams c_blk_bidi c_blk_uni].
-  - exact (p_bl _ _ V).
-  - apply Forall_app. split.
-    + eapply Forall_impl; [|exact (p_streams _ _ V)]. intros x. apply SQ2_mono; [exact S|intros; lia].
-    + constructor; [|constructor]. apply (SQ2_mono c c1 gm gm); [exact S|intros; lia|].
-      pose proof (p_bl _ _ V). specialize (Hgm sid).
-      unfold SQ2, granted, initial_for, t. cbn [t_msdr t_id t_blocked]. rewrite Hloc.
-      split; [intros _; destruct (sid_uni sid); lia|intros X; discriminate].
-  - apply NoDup_ids_snoc; [exact (p_nodup _ _ V)|exact Ef].
-  - eapply BL_mono; [reflexivity|]. apply BL_app. exact (p_blk_bidi _ _ V).
-  - eapply BL_mono; [reflexivity|]. apply BL_app. exact (p_blk_uni _ _ V).
-Qed.
-
-Lemma unblock_loop_pinv (c : conn) (gm : Z -> Z) (uni : bool) :
-  forall blk l other blk' l',
-  Forall (SQ2 c gm) l -> BL c l uni blk -> BL c l (negb uni) other ->
-  unblock_loop (if uni then c_msd_uni c else c_msd_br c) (if uni then c_ms_uni c else c_ms_bidi c) blk l = (blk', l') ->
-  Forall (SQ2 c gm) l' /\ map t_id l' = map t_id l /\ BL c l' uni blk' /\ BL c l' (negb uni) other.
-Proof.
-  set (msd := if uni then c_msd_uni c else c_msd_br c). set (maxs := if uni then c_ms_uni c else c_ms_bidi c).
-  intros blk. induction blk as [|sid rest IH]; intros l other blk' l' F B O; cbn [unblock_loop].
-  - intros H; inversion H; subst. auto.
-  - destruct (sid / 4 <? maxs) eqn:E.
-    2:{ intros H; inversion H; subst. auto. }
-    destruct B as (N & HB). inversion N as [|? ? Hni N']; subst.
-    destruct (HB sid (or_introl eq_refl)) as (Hu & Hl & t & Ft & Bt).
-    assert (Hid : forall x, t_id (unblocked msd x) = t_id x) by reflexivity.
-    pose proof (find_id _ _ _ Ft) as Hidt.
-    assert (Q : SQ2 c gm (unblocked msd t)).
-    { unfold SQ2, unblocked, granted, initial_for, ms_for. cbn [t_msdr t_id t_blocked]. rewrite Hidt, Hl, Hu.
-      fold msd maxs. split; intros; lia. }
-    intros H. apply (IH (upd_strm sid (unblocked msd) l) other blk' l') in H.
-    + destruct H as (R1 & R2 & R3 & R4). split; [exact R1|]. split; [|split; assumption].
-      rewrite R2. apply map_id_upd. exact Hid.
-    + apply (Forall_upd _ sid _ _ t); assumption.
-    + split; [exact N'|]. intros s Hin. destruct (HB s (or_intror Hin)) as (X1 & X2 & t' & Ft' & Bt').
-      repeat split; try assumption. exists t'. split; [|exact Bt'].
-      rewrite find_upd_other; [exact Ft'|exact Hid|]. intros ->. contradiction.
-    + destruct O as (NO & HO). split; [exact NO|]. intros s Hin. destruct (HO s Hin) as (X1 & X2 & t' & Ft' & Bt').
-      repeat split; try assumption. exists t'. split; [|exact Bt'].
-      rewrite find_upd_other; [exact Ft'|exact Hid|]. intros ->. rewrite Hu in X1. destruct uni; discriminate.
-Qed.
-
-Lemma unblock_pinv c gm uni : PInv c gm -> PInv (unblock c uni) gm.
-Proof.
-  intros V. unfold unblock. destruct uni.
-  - destruct (unblock_loop (c_msd_uni c) (c_ms_uni c) (c_blk_uni c) (c_streams c)) as [blk l] eqn:E.
-    destruct (unblock_loop_pinv c gm true _ _ (c_blk_bidi c) _ _ (p_streams _ _ V) (p_blk_uni _ _ V) (p_blk_bidi _ _ V) E)
-      as (R1 & R2 & R3 & R4).
-    set (c' := mkConn _ _ _ _ _ _ _ _ _ _ _).
-    assert (S : sc_le c c') by (unfold sc_le, c'; cbn [c_client c_msd_bl c_msd_br c_msd_uni c_ms_bidi c_ms_uni]; repeat split; try reflexivity; lia).
-    constructor; unfold c'; cbn [c_msd_bl c_streams c_blk_bidi c_blk_uni].
-    + exact (p_bl _ _ V).
-    + eapply Forall_impl; [|exact R1]. intros x. apply SQ2_mono; [exact S|intros; lia].
-    + rewrite R2. exact (p_nodup _ _ V).
-    + eapply BL_mono; [reflexivity|exact R4].
-    + eapply BL_mono; [reflexivity|exact R3].
-  - destruct (unblock_loop (c_msd_br c) (c_ms_bidi c) (c_blk_bidi c) (c_streams c)) as [blk l] eqn:E.
-    destruct (unblock_loop_pinv c gm false _ _ (c_blk_uni c) _ _ (p_streams _ _ V) (p_blk_bidi _ _ V) (p_blk_uni _ _ V) E)
-      as (R1 & R2 & R3 & R4).
-    set (c' := mkConn _ _ _ _ _ _ _ _ _ _ _).
-    assert (S : sc_le c c') by (unfold sc_le, c'; cbn [c_client c_msd_bl c_msd_br c_msd_uni c_ms_bidi c_ms_uni]; repeat split; try reflexivity; lia).
-    constructor; unfold c'; cbn [c_msd_bl c_streams c_blk_bidi c_blk_uni].
-    + exact (p_bl _ _ V).
-    + eapply Forall_impl; [|exact R1]. intros x. apply SQ2_mono; [exact S|intros; lia].
-    + rewrite R2. exact (p_nodup _ _ V).
-    + eapply BL_mono; [reflexivity|exact R3].
-    + eapply BL_mono; [reflexivity|exact R4].
-Qed.
-
-(* the repaired function with 0-RTT accepted, in ANY state: it either stores all six values, none of them below the
-   value held, or stops with PROTOCOL_VIOLATION; in both cases no limit of the connection is lowered and nothing but
-   the limits changes *)
+(* 0-RTT accepted, in ANY state and for ANY values: the function either stores all six values, none of them below
+   the value held, or stops with PROTOCOL_VIOLATION; in both cases no limit of the connection is lowered and nothing
+   but the limits changes *)
 Lemma accepted_never_lowers_l c md bl br un sb su :
   let r := fstep c (OParamsP PAccepted md bl br un sb su) in
   (fst r = FOk \/ fst r = FQErr PROTOCOL_VIOLATION) /\
@@ -520,184 +274,113 @@ Proof.
   - intros H. exact (proj1 (store_limits_ok _ _ _ _ _ _ _ _ H)).
 Qed.
 
-(* ---------- the blocked lists rebuilt by the repaired function ---------- *)
-Lemma find_map_blocked sid l : find_strm sid (map blocked_again l) = option_map blocked_again (find_strm sid l).
+(* 0-RTT not accepted, in ANY state: the six limits become exactly the received values (absent = 0), whatever was
+   held; every stream is held back with highest_offset 0 and the credit counter is 0: what was sent under the
+   remembered limits no longer counts (the peer has discarded it) and nothing is sent until _unblock_streams
+   releases the streams under the new limits *)
+Lemma rejected_forgets_l c md bl br un sb su :
+  let r := fstep c (OParamsP PRejected md bl br un sb su) in
+  fst r = FOk /\
+  c_max_data (snd r) = orz md 0 /\ c_msd_bl (snd r) = orz bl 0 /\ c_msd_br (snd r) = orz br 0 /\
+  c_msd_uni (snd r) = orz un 0 /\ c_ms_bidi (snd r) = orz sb 0 /\ c_ms_uni (snd r) = orz su 0 /\
+  c_used (snd r) = 0 /\
+  map t_id (c_streams (snd r)) = map t_id (c_streams c) /\
+  (forall t, In t (c_streams (snd r)) -> t_blocked t = true /\ s_highest (t_send t) = 0) /\
+  (forall sid ms, silent (fst (fstep (snd r) (OGet sid ms)))).
 Proof.
-  induction l as [|x l IH]; cbn [map find_strm option_map]; [reflexivity|]. cbn [blocked_again t_id].
-  destruct (t_id x =? sid); [reflexivity|exact IH].
+  cbn [fstep]. cbv zeta.
+  destruct (store_limits_ok false c (orz md 0) (orz bl 0) (orz br 0) (orz un 0) (orz sb 0) (orz su 0)) as (Hs & _).
+  { unfold store_limits. cbn [andb]. reflexivity. }
+  cbn [fst snd]. rewrite Hs.
+  assert (Hall : forall t, In t (map blocked_again (c_streams c)) -> t_blocked t = true /\ s_highest (t_send t) = 0).
+  { intros t Hin. apply in_map_iff in Hin. destruct Hin as (x & <- & _). split; reflexivity. }
+  split; [unfold store_limits; cbn [andb]; reflexivity|].
+  cbn [reblock with_limits c_max_data c_msd_bl c_msd_br c_msd_uni c_ms_bidi c_ms_uni c_used c_streams].
+  repeat (split; [reflexivity|]). split; [rewrite map_map; reflexivity|]. split; [exact Hall|].
+  intros sid ms. cbn [fstep c_streams].
+  destruct (find_strm sid (map blocked_again (c_streams c))) as [t|] eqn:Ef; [|right; reflexivity].
+  destruct (Hall t (find_in _ _ _ Ef)) as (Hb & _). rewrite Hb, orb_true_r. left; reflexivity.
 Qed.
 
-Lemma in_find t l : In t l -> exists t', find_strm (t_id t) l = Some t'.
+(* get_frame does not look at highest_offset: the frame it cuts is the same whatever that field holds *)
+Lemma get_frame_forget st ms mo : fst (get_frame (forget st) ms mo) = fst (get_frame st ms mo).
 Proof.
-  induction l as [|x l IH]; [intros []|]. intros [->|H]; cbn [find_strm].
-  - assert (E : t_id t =? t_id t = true) by lia. rewrite E. eauto.
-  - destruct (t_id x =? t_id t); [eauto|exact (IH H)].
+  unfold get_frame. cbn [forget s_reset s_pending s_pending_eof s_fin s_buf s_start s_highest].
+  destruct (s_reset st); [reflexivity|]. destruct (s_pending st) as [|[a b] r]; [destruct (s_pending_eof st); reflexivity|].
+  cbv zeta. match goal with |- context [if ?c then (SNone, _) else _] => destruct c end; reflexivity.
 Qed.
 
-Lemma NoDup_map_filter (p : strm -> bool) l : NoDup (map t_id l) -> NoDup (map t_id (filter p l)).
-Proof.
-  induction l as [|x l IH]; cbn [map filter]; [auto|]. intros N. inversion N as [|? ? Hni N']; subst.
-  destruct (p x); [|exact (IH N')]. cbn [map]. constructor; [|exact (IH N')].
-  intros Hin. apply Hni. apply in_map_iff in Hin. destruct Hin as (y & Hy & Hin). apply filter_In in Hin.
-  apply in_map_iff. exists y. tauto.
-Qed.
+(* a sender whose history is legitimate in the sense of C10 up to a forgotten highest_offset *)
+Definition reach_upto_forget (st : send) (g : ghost) : Prop :=
+  reach st g \/ exists st0, reach st0 g /\ forall ms mo, fst (get_frame st ms mo) = fst (get_frame st0 ms mo).
 
-Lemma BL_rebuilt c c' uni :
-  c_client c' = c_client c -> NoDup (map t_id (c_streams c)) ->
-  Forall (fun t => is_local c (t_id t) = true) (c_streams c) ->
-  BL c' (map blocked_again (c_streams c)) uni
-     (map t_id (filter (fun t => if uni then sid_uni (t_id t) else negb (sid_uni (t_id t))) (c_streams c))).
-Proof.
-  intros Hc N L. split; [apply NoDup_map_filter; exact N|].
-  intros sid Hin. apply in_map_iff in Hin. destruct Hin as (t & <- & Hin). apply filter_In in Hin. destruct Hin as (Hin & Hp).
-  rewrite Forall_forall in L. split; [destruct uni, (sid_uni (t_id t)); try reflexivity; discriminate|].
-  split; [unfold is_local; rewrite Hc; exact (L t Hin)|].
-  destruct (in_find t _ Hin) as (t' & Ft). exists (blocked_again t'). split; [rewrite find_map_blocked, Ft; reflexivity|reflexivity].
-Qed.
-
-Lemma gm_nonneg_step gm op : (forall s, 0 <= gm s) -> forall s, 0 <= gstep gm op s.
-Proof. intros H s. pose proof (gstep_ge gm op s). specialize (H s). lia. Qed.
-
-Lemma pstep_inv c gm op : PInv c gm -> (forall s, 0 <= gm s) -> pguard2 c op -> PInv (snd (fstep c op)) (gstep gm op).
-Proof.
-  intros V Hgm G. destruct op as [sid d f|sid code|sid|v|sid v|uni v|md bl br un sb su| |sid ms|sid|sid k a b f|sid k|sid|sid|sid|sid k|pm md bl br un sb su];
-    cbn [fstep]; try (change (gstep gm _) with gm).
-  - destruct (for_send c sid) as [[c1 t]|] eqn:E; [|exact V]. destruct (for_send_pinv _ _ _ _ _ V E) as (V1 & F1).
-    destruct (write (t_send t) d f) as [o s']. cbn [snd]. exact (PInv_upd_send c1 gm sid t s' V1 F1).
-  - destruct (for_send c sid) as [[c1 t]|] eqn:E; [|exact V]. destruct (for_send_pinv _ _ _ _ _ V E) as (V1 & F1).
-    destruct (reset (t_send t) code) as [o s']. cbn [snd]. exact (PInv_upd_send c1 gm sid t s' V1 F1).
-  - destruct (negb (can_send c sid)); [exact V|].
-    destruct (from_peer c sid) as [[c1 t]|] eqn:E; [|exact V]. destruct (from_peer_pinv _ _ _ _ _ V Hgm E) as (V1 & F1).
-    destruct (reset (t_send t) 0) as [o s']. cbn [snd]. exact (PInv_upd_send c1 gm sid t s' V1 F1).
-  - cbn [snd]. destruct (v >? c_max_data c) eqn:E; [|exact V].
-    apply (PInv_grow c _ gm gm); [sc_solve|intros; lia|reflexivity|reflexivity|reflexivity|exact V].
-  - assert (Hg : forall s, gm s <= gstep gm (OMaxStreamData sid v) s) by (intros s; apply gstep_ge).
-    assert (W : forall c0, PInv c0 gm -> PInv c0 (gstep gm (OMaxStreamData sid v)))
-      by (intros c0; apply PInv_grow; try reflexivity; [apply sc_le_refl|exact Hg]).
-    destruct (negb (can_send c sid)); [exact (W _ V)|].
-    destruct (from_peer c sid) as [[c1 t]|] eqn:E; [|exact (W _ V)].
-    destruct (from_peer_pinv _ _ _ _ _ V Hgm E) as (V1 & F1). cbn [snd].
-    pose proof (W _ V1) as V2.
-    destruct (v >? t_msdr t) eqn:Ev; [|exact V2]. unfold with_streams.
-    apply (PInv_upd c1 _ sid (set_msdr v) t (c_used c1) V2 F1); try (intros; reflexivity).
-    pose proof (p_streams _ _ V2) as F. rewrite Forall_forall in F. specialize (F t (find_in _ _ _ F1)).
-    destruct F as (A & B). unfold SQ2, set_msdr. cbn [t_msdr t_id t_blocked]. split; [|exact B].
-    intros _. unfold granted. rewrite (find_id _ _ _ F1). cbn [gstep]. assert (Es : sid =? sid = true) by lia. rewrite Es. lia.
-  - destruct (v >? 1152921504606846976); [exact V|]. destruct uni.
-    + destruct (v >? c_ms_uni c) eqn:E; [|exact V]. cbn [snd]. apply unblock_pinv.
-      apply (PInv_grow c _ gm gm); [sc_solve|intros; lia|reflexivity|reflexivity|reflexivity|exact V].
-    + destruct (v >? c_ms_bidi c) eqn:E; [|exact V]. cbn [snd]. apply unblock_pinv.
-      apply (PInv_grow c _ gm gm); [sc_solve|intros; lia|reflexivity|reflexivity|reflexivity|exact V].
-  - cbn [snd]. cbn [pguard2 pguard] in G. destruct G as (G1 & G2 & G3 & G4 & G5 & G6).
-    pose proof (orz_le _ _ G1). pose proof (orz_le _ _ G2). pose proof (orz_le _ _ G3).
-    pose proof (orz_le _ _ G4). pose proof (orz_le _ _ G5). pose proof (orz_le _ _ G6).
-    apply (PInv_grow c _ gm gm); [sc_solve|intros; lia|reflexivity|reflexivity|reflexivity|exact V].
-  - cbn [snd]. apply unblock_pinv, unblock_pinv, V.
-  - destruct (find_strm sid (c_streams c)) as [t|] eqn:Ef; [|exact V].
-    destruct (s_reset_pending (t_send t) || t_blocked t || s_empty (t_send t)); [exact V|].
-    destruct (get_frame (t_send t) ms (Some (max_offset c t))) as [o s']. cbn [snd].
-    apply (PInv_upd c gm sid (set_send s') t _ V Ef); try (intros; reflexivity).
-    pose proof (p_streams _ _ V) as F. rewrite Forall_forall in F. exact (F t (find_in _ _ _ Ef)).
-  - destruct (find_strm sid (c_streams c)) as [t|] eqn:Ef; [|exact V].
-    destruct (negb (s_reset_pending (t_send t)) || t_blocked t); [exact V|].
-    cbn [get_reset_frame snd]. exact (PInv_upd_send c gm sid t _ V Ef).
-  - destruct (find_strm sid (c_streams c)) as [t|] eqn:Ef; [|exact V].
-    destruct (on_data_delivery (t_send t) k a b f) as [o s']. cbn [snd]. exact (PInv_upd_send c gm sid t s' V Ef).
-  - destruct (find_strm sid (c_streams c)) as [t|] eqn:Ef; [|exact V].
-    destruct (on_reset_delivery (t_send t) k) as [o s']. cbn [snd]. exact (PInv_upd_send c gm sid t s' V Ef).
-  - destruct (from_peer c sid) as [[c1 t]|] eqn:E; [|exact V]. exact (proj1 (from_peer_pinv _ _ _ _ _ V Hgm E)).
-  - destruct (negb (can_receive c sid)); [exact V|].
-    destruct (find_strm sid (c_streams c)) as [t|] eqn:Ef; [|exact V]. cbn [snd]. exact (PInv_upd_stop _ _ _ _ _ V Ef).
-  - destruct (find_strm sid (c_streams c)) as [t|] eqn:Ef; [|exact V].
-    destruct (negb (t_stop t) || t_blocked t); [exact V|]. cbn [snd]. exact (PInv_upd_stop _ _ _ _ _ V Ef).
-  - destruct (find_strm sid (c_streams c)) as [t|] eqn:Ef; [|exact V]. cbn [snd].
-    destruct k; [exact V|exact (PInv_upd_stop _ _ _ _ _ V Ef)].
-  - (* the repaired function *)
-    destruct pm; cbn [pguard2 pguard] in G; cbn [snd fst].
-    + destruct (store_limits_keep false c (orz md 0) (orz bl 0) (orz br 0) (orz un 0) (orz sb 0) (orz su 0)) as (K1 & K2 & K3 & K4 & K5).
-      destruct (store_limits_grow false c (orz md 0) (orz bl 0) (orz br 0) (orz un 0) (orz sb 0) (orz su 0) (or_intror G)) as (S1 & S2).
-      apply (PInv_grow c _ gm gm); [exact S1|intros; lia|exact K3|exact K4|exact K5|exact V].
-    + destruct (store_limits_keep true c (orz md 0) (orz bl 0) (orz br 0) (orz un 0) (orz sb 0) (orz su 0)) as (K1 & K2 & K3 & K4 & K5).
-      destruct (store_limits_grow true c (orz md 0) (orz bl 0) (orz br 0) (orz un 0) (orz sb 0) (orz su 0) (or_introl eq_refl)) as (S1 & S2).
-      apply (PInv_grow c _ gm gm); [exact S1|intros; lia|exact K3|exact K4|exact K5|exact V].
-    + (* 0-RTT not accepted: limits overwritten (possibly lowered), every stream blocked again, lists rebuilt *)
-      destruct G as (N1 & N2 & N3 & N4 & N5 & N6 & L).
-      destruct (store_limits_keep false c (orz md 0) (orz bl 0) (orz br 0) (orz un 0) (orz sb 0) (orz su 0)) as (K1 & K2 & K3 & K4 & K5).
-      destruct (store_limits_ok false c (orz md 0) (orz bl 0) (orz br 0) (orz un 0) (orz sb 0) (orz su 0)) as (Hs & _).
-      { unfold store_limits. cbn [andb]. reflexivity. }
-      set (c1 := snd (store_limits false c (orz md 0) (orz bl 0) (orz br 0) (orz un 0) (orz sb 0) (orz su 0))) in *.
-      constructor; unfold reblock; cbn [c_msd_bl c_streams c_blk_bidi c_blk_uni]; rewrite ?K3.
-      * rewrite Hs. cbn [with_limits c_msd_bl]. destruct bl; cbn [orz nn] in *; lia.
-      * apply Forall_map. apply Forall_forall. intros t _. split; cbn [blocked_again t_blocked]; intros; discriminate.
-      * rewrite map_map. cbn [blocked_again t_id]. exact (p_nodup _ _ V).
-      * apply (BL_rebuilt c _ false); [reflexivity|exact (p_nodup _ _ V)|exact L].
-      * apply (BL_rebuilt c _ true); [reflexivity|exact (p_nodup _ _ V)|exact L].
-Qed.
-
-Lemma preach_inv c gm : preach c gm -> PInv c gm /\ forall s, 0 <= gm s.
-Proof.
-  induction 1 as [|c gm op R (V & Hg) G]; [split; [apply pinv_init|intros; lia]|].
-  split; [apply pstep_inv; assumption|apply gm_nonneg_step; exact Hg].
-Qed.
-
-(* every _write_stream_frame call the loop makes -- also after handshake parameters LOWERED the remembered limits --
-   is for a stream inside the stream-count limit in force, with a max_offset within the stream's limit, which is
-   covered by what the peer granted under the parameters in force; a data frame ends at or below max_offset *)
+(* every _write_stream_frame call the loop makes in a reachable state -- also after handshake parameters LOWERED
+   the remembered limits -- is for a stream inside the stream-count limit in force, with a max_offset that is
+   within the stream's limit, which is covered by what the peer granted under the parameters in force, and within
+   the connection credit, where the credit counter is the sum of the highest offsets and within MAX_DATA; a frame
+   that carries data ends at or below max_offset *)
 Lemma latest_limits_respected_l c gm sid ms mo o c' t :
-  preach c gm -> find_strm sid (c_streams c) = Some t ->
+  freach c gm -> find_strm sid (c_streams c) = Some t ->
   fstep c (OGet sid ms) = (FGet mo o, c') ->
   mo <= t_msdr t /\ t_msdr t <= granted c gm sid /\
   mo <= s_highest (t_send t) + c_max_data c - c_used c /\
+  c_used c = sum_high (c_streams c) /\ c_used c' = sum_high (c_streams c') /\ c_used c' <= c_max_data c' /\
   (is_local c sid = true -> sid / 4 < ms_for c sid) /\
-  (forall g off data fin, reach (t_send t) g -> o = SFrame off data fin -> data <> [] -> off + Zlen data <= mo).
+  (forall g off data fin, reach_upto_forget (t_send t) g -> o = SFrame off data fin -> data <> [] -> off + Zlen data <= mo).
 Proof.
-  intros R Hf H. destruct (preach_inv _ _ R) as (V & _).
+  intros R Hf H. pose proof (freach_inv _ _ R) as V.
+  assert (R' : freach c' gm).
+  { change gm with (gstep gm (OGet sid ms)). replace c' with (snd (fstep c (OGet sid ms))) by (rewrite H; reflexivity).
+    apply freach_step; [exact R|exact Logic.I]. }
+  pose proof (freach_inv _ _ R') as V'.
   cbn [fstep] in H. rewrite Hf in H.
   destruct (s_reset_pending (t_send t) || t_blocked t || s_empty (t_send t)) eqn:Eg; [discriminate|].
   assert (Hb : t_blocked t = false) by (destruct (t_blocked t); [rewrite orb_true_r in Eg; discriminate|reflexivity]).
   assert (He : s_empty (t_send t) = false) by (destruct (s_empty (t_send t)); [rewrite orb_true_r in Eg; discriminate|reflexivity]).
-  pose proof (p_streams _ _ V) as F. rewrite Forall_forall in F. destruct (F t (find_in _ _ _ Hf)) as (A & B).
+  pose proof (i_streams _ _ V) as F. rewrite Forall_forall in F. destruct (F t (find_in _ _ _ Hf)) as (_ & A & _ & B).
   rewrite (find_id _ _ _ Hf) in A, B.
-  destruct (get_frame (t_send t) ms (Some (max_offset c t))) as [o' s'] eqn:Ew. inversion H; subst mo o' c'. clear H.
+  destruct (get_frame (t_send t) ms (Some (max_offset c t))) as [o' s'] eqn:Ew. inversion H; subst mo o' c'.
   unfold max_offset.
-  split; [lia|]. split; [exact (A Hb)|]. split; [lia|]. split; [intros Hl; exact (B Hl Hb)|].
+  split; [lia|]. split; [exact (A Hb)|]. split; [lia|]. split; [symmetry; exact (i_sum _ _ V)|].
+  split; [symmetry; exact (i_sum _ _ V')|]. split; [exact (i_used _ _ V')|].
+  split; [intros Hl; exact (B Hl Hb)|].
   intros g off data fin RS -> Hne.
-    assert (Hr : s_reset (t_send t) = None).
-    { destruct (s_reset (t_send t)) eqn:Er; [|reflexivity]. pose proof (v_reset_empty _ _ (reach_inv _ _ RS)) as X.
-      rewrite Er in X. rewrite X in He; [discriminate|discriminate]. }
-    destruct (send_frames_exact _ _ _ _ _ _ _ _ RS Hr Ew) as (_ & _ & _ & Hd & _).
-  destruct (Hd Hne) as (_ & Hm). apply Hm. reflexivity.
+  assert (K : forall st0, reach st0 g -> fst (get_frame st0 ms (Some (max_offset c t))) = SFrame off data fin ->
+              off + Zlen data <= max_offset c t).
+  { intros st0 R0 E0. destruct (get_frame st0 ms (Some (max_offset c t))) as [o0 s0] eqn:Ew0. cbn [fst] in E0. subst o0.
+    assert (Hr : s_reset st0 = None).
+    { destruct (s_reset st0) eqn:Er; [|reflexivity]. unfold get_frame in Ew0. rewrite Er in Ew0. discriminate. }
+    destruct (send_frames_exact _ _ _ _ _ _ _ _ R0 Hr Ew0) as (_ & _ & _ & Hd & _).
+    destruct (Hd Hne) as (_ & Hm). apply Hm. reflexivity. }
+  destruct RS as [RS|(st0 & R0 & E0)].
+  - apply (K _ RS). rewrite Ew. reflexivity.
+  - apply (K _ R0). rewrite <- E0, Ew. reflexivity.
 Qed.
 
-(* non-vacuity, and the scenario of finding C06-F1 under the repaired function: remembered limit 100, 20 bytes sent in
-   0-RTT, 0-RTT not accepted and the handshake grants 50: after the handshake the stream carries the new limit; with 80
-   bytes written the lost bytes are re-sent and the next frame stops at 50; with 0-RTT accepted the same parameters
-   are refused with PROTOCOL_VIOLATION *)
+Lemma reach_upto_forget_forget st g : reach st g -> reach_upto_forget (forget st) g.
+Proof. intros R. right. exists st. split; [exact R|]. intros. apply get_frame_forget. Qed.
+
+(* the scenario of finding C06-F1 under the repaired function: remembered limit 100, 20 bytes sent in 0-RTT, 0-RTT
+   not accepted and the handshake grants 50: the stream is forgotten and held back, then released with limit 50; the
+   lost 20 bytes and 60 new ones are cut into ONE frame that stops at 50 and is charged 50 (highest_offset restarted
+   from 0); the next call yields nothing; with 0-RTT accepted the same parameters are refused *)
 Definition ops_f1_repaired : list fop :=
   [OParamsP PTicket (Some 1000) (Some 100) (Some 100) (Some 100) (Some 4) (Some 4); OSend 0 (zeros 20) false; OGet 0 1000;
    OParamsP PRejected (Some 1000) (Some 50) (Some 50) (Some 50) (Some 4) (Some 4); OHandshakeDone;
    ODeliv 0 false 0 20 false; OSend 0 (zeros 60) false].
 
-Fixpoint guards2 (c : conn) (ops : list fop) : Prop :=
-  match ops with [] => True | op :: r => pguard2 c op /\ guards2 (snd (fstep c op)) r end.
-
-Lemma preach_run ops : forall c gm, preach c gm -> guards2 c ops -> preach (frun c ops) (grun gm ops).
-Proof.
-  induction ops as [|op r IH]; intros c gm R G; cbn [frun grun fold_left]; [exact R|].
-  destruct G as (G1 & G2). apply IH; [apply preach_step; assumption|exact G2].
-Qed.
-
 Lemma repaired_witness_l :
   let c := frun (conn_init true) ops_f1_repaired in
-  guards2 (conn_init true) ops_f1_repaired /\
-  (exists t, find_strm 0 (c_streams c) = Some t /\ t_blocked t = false /\ t_msdr t = 50 /\ s_highest (t_send t) = 20) /\
-  (exists c1, fstep c (OGet 0 1000) = (FGet 50 (SFrame 0 (zeros 50) false), c1) /\
+  guards (conn_init true) ops_f1_repaired /\
+  (exists t, find_strm 0 (c_streams c) = Some t /\ t_blocked t = false /\ t_msdr t = 50 /\ s_highest (t_send t) = 0) /\ c_used c = 0 /\
+  (exists c1, fstep c (OGet 0 1000) = (FGet 50 (SFrame 0 (zeros 50) false), c1) /\ c_used c1 = 50 /\
               fst (fstep c1 (OGet 0 1000)) = FGet 50 SNone) /\
   fst (fstep (frun (conn_init true) (firstn 3 ops_f1_repaired))
              (OParamsP PAccepted (Some 1000) (Some 50) (Some 50) (Some 50) (Some 4) (Some 4))) = FQErr PROTOCOL_VIOLATION.
 Proof.
   cbv zeta. split.
-  - cbn [guards2 ops_f1_repaired]. repeat split; try exact I; try (cbv; intros; discriminate); try (cbn; lia).
+  - cbn [guards ops_f1_repaired]. repeat split; try exact I; try (cbv; intros; discriminate); try (cbn; lia).
     vm_compute. repeat constructor.
-  - split; [eexists; vm_compute; repeat split|]. split; [eexists; split; vm_compute; reflexivity|vm_compute; reflexivity].
+  - split; [eexists; vm_compute; repeat split|]. split; [vm_compute; reflexivity|].
+    split; [eexists; split; [vm_compute; reflexivity|split; vm_compute; reflexivity]|vm_compute; reflexivity].
 Qed.
